@@ -40,6 +40,28 @@ def prompt_script(rng, n_items, gaps, term):
     return evs
 
 
+def is_prompt(events, w):
+    """The schedule is a prompt unit-step one (also after shrinking): the executor runs after the subscription,
+    after every emission and after every clock step, the clock moves in steps of 1, nobody fires or polls by
+    hand, and the clock goes on for more than a window after the last emission."""
+    if not events or events[0] != ["sub"]:
+        return False
+    tail = 0
+    for i, e in enumerate(events):
+        if e[0] in ("fire", "poll", "unsub"):
+            return False
+        if e[0] in ("sub", "emit", "adv"):
+            if i + 1 >= len(events) or events[i + 1][0] != "run":
+                return False
+        if e[0] == "adv":
+            if e[1] != "1":
+                return False
+            tail += 1
+        if e[0] == "emit":
+            tail = 0
+    return tail > w
+
+
 class C09(Prop):
     pid = "C09"
     lean_module = "RxModel.Props.C09"
@@ -74,9 +96,22 @@ class C09(Prop):
                                             [("pipe", [st + [["hot", "0"]]])],
                                             prompt_script(rng, n, gaps, term),
                                             {"kind": "prompt", "w": w, "gaps": list(gaps)}))
+        # the degenerate window 0 (nothing is throttled / debounced away, but every item still goes through its
+        # own scheduler task: the trailing edge delivers from the task)
+        for st in (["debounce", "0"], ["throttle", "0", "l"], ["throttle", "0", "t"], ["throttle", "0", "a"]):
+            for n in range(1, maxn + 1):
+                for gaps in itertools.product([0, 1], repeat=n):
+                    for term in (None, "c", ["e", "7"]):
+                        out.append(Case("time", "local" if len(out) % 3 else "threads",
+                                        [("pipe", [st + [["hot", "0"]]])],
+                                        prompt_script(rng, n, gaps, term),
+                                        {"kind": "prompt", "w": 0, "gaps": list(gaps)}))
         n = 4000 if tier == "quick" else 40000
         for i in range(n):
             pipe = tg.chain(rng, ["hot", "0"], OPS, rng.randint(1, 2), p_sync=0.15)
+            if rng.random() < 0.08:
+                # window 0 in random chains too
+                pipe = self._zero_window(pipe)
             mode = "mixed" if i % 2 else "fifo"
             evs = tg.events(rng, rng.randint(4, 16), hot=True, mode=mode, unsub_p=0.03)
             out.append(Case("time", rng.choice(["local", "threads"]), [("pipe", [pipe])], evs, {"kind": mode}))
@@ -94,7 +129,15 @@ class C09(Prop):
                     evs.append(["emit", str(rng.randint(0, 1)), rng.choice(["c", ["e", "3"]])])
             out.append(Case("pipe", rng.choice(["local", "threads"]),
                             [("pipe", [["sample", ["hot", "0"], ["hot", "1"]]])], evs, {"kind": "sample"}))
-        return out
+        return tg.with_units(seed, out)
+
+    @staticmethod
+    def _zero_window(node):
+        if isinstance(node, list) and node and node[0] in ("debounce", "throttle"):
+            return [node[0], "0"] + [C09._zero_window(x) for x in node[2:]]
+        if isinstance(node, list):
+            return [C09._zero_window(x) for x in node]
+        return node
 
     def oracle(self, case, lines, model_lines=None):
         pipe = case.field("pipe")[0]
@@ -106,6 +149,7 @@ class C09(Prop):
         t = 0
         completed = False
         unsub = False
+        term_kind = term_t = None
         cnt = int(pipe[1]) if pipe[0] == "bufcounttime" else None
         for k, e in enumerate(case.events):
             b = lines.get(k)
@@ -144,7 +188,9 @@ class C09(Prop):
                     return {"kind": "debounce-last-lost", "event": k, "detail": f"{emitted[-1]} not delivered"}
             if term is not None:
                 completed = True
-        if case.meta.get("kind") == "prompt" and not unsub:
+                if term_kind is None:
+                    term_kind, term_t = ("C" if term == "C" else "E"), t
+        if is_prompt(case.events, int(pipe[2]) if pipe[0] == "bufcounttime" else int(pipe[1]) if pipe[0] != "sample" else 0) and not unsub:
             w = int(pipe[1]) if pipe[0] != "bufcounttime" else int(pipe[2])
             if pipe[0] == "debounce":
                 for i, v in enumerate(emitted):
@@ -165,6 +211,34 @@ class C09(Prop):
                 v = emitted[0]
                 if v not in delivered or deliver_t[v] != emit_t[v]:
                     return {"kind": "throttle-leading", "event": 0, "detail": f"first item {v} not delivered at once"}
+            if pipe[0] == "throttle" and emitted and term_kind in (None, "C"):
+                # the windows of a prompt schedule: an item that finds no open window opens one of length w
+                # (closed by the executor at open + w, before anything emitted at that instant)
+                wins = []
+                for v in emitted:
+                    if wins and emit_t[v] < wins[-1][0] + w:
+                        wins[-1][2] = v
+                    else:
+                        wins.append([emit_t[v], v, v])
+                want = []
+                for (t0, first, last) in wins:
+                    if pipe[2] in ("l", "a"):
+                        want.append(first)
+                        if deliver_t.get(first) != emit_t[first]:
+                            return {"kind": "throttle-leading", "event": 0,
+                                    "detail": f"item {first} opens the window at {t0} and is not delivered at once"}
+                    if pipe[2] in ("t", "a") and not (pipe[2] == "a" and last == first):
+                        want.append(last)
+                        close = t0 + w if term_t is None else min(t0 + w, max(term_t, emit_t[last]))
+                        if last not in delivered:
+                            return {"kind": "throttle-trailing-lost", "event": 0,
+                                    "detail": f"item {last} is the last of the window [{t0},{t0 + w}) and is never delivered"}
+                        if deliver_t[last] != close:
+                            return {"kind": "throttle-trailing-timing", "event": 0,
+                                    "detail": f"item {last}: window [{t0},{t0 + w}), delivered at {deliver_t[last]}"}
+                if delivered != want:
+                    return {"kind": "throttle-windows", "event": 0,
+                            "detail": f"windows {wins}: expected {want}, delivered {delivered}"}
         return None
 
     def signature(self, case, failure):
